@@ -8,7 +8,8 @@
 From Coq Require Import List NArith ZArith Bool String.
 From GoGit Require Import Base.Out Base.GoInt Model.PackBytes Model.Idx Spec.IdxFormat
   Proofs.C10Basic Proofs.C10Order Proofs.C10Table Proofs.C10Layout Proofs.C10Lazy Proofs.C10Main
-  Proofs.C10Decode Proofs.C10Memory Proofs.C10Mmap Proofs.C10Rev Proofs.C10MemHash.
+  Proofs.C10Decode Proofs.C10Memory Proofs.C10Mmap Proofs.C10Rev Proofs.C10MemHash
+  Proofs.C10MmapHash Proofs.C10Prefix.
 Import ListNotations.
 Local Open Scope N_scope.
 
@@ -189,6 +190,37 @@ Proof.
   - intros st o Hst Hlt. exact (mem_find_hash_map hs Hsz tbl pack sum WF Hp Hd Hs st o Hst Hlt).
 Qed.
 Print Assumptions C10_memory_findhash_history.
+
+(* mmap.PackScanner.FindHash (closed-interval binary search through the .rev, uint64 offsets):
+   for every offset the id of the map by offset; needs distinct offsets only *)
+Theorem C10_mmap_findhash_is_map : forall hs H es pack hf o,
+  wf_entries hs es = true -> List.length pack = hs -> (20 <= hs)%nat ->
+  (forall b, List.length (H b) = hs) -> distinct_offsets (table es) ->
+  let tbl := table es in
+  scan_find_hash hs (the_scanner hs H tbl pack (rev_file H hf tbl pack)) o
+  = match lookup_off tbl o with Some e => Ok (e_hash e) | None => Err ENotFound end.
+Proof.
+  intros hs H es pack hf o W Hp H20 Hd Hdist tbl.
+  exact (scan_find_hash_map hs H tbl pack hf (wf_entries_tbl hs es W) Hp H20 Hd Hdist o).
+Qed.
+Print Assumptions C10_mmap_findhash_is_map.
+
+(* ---- EntriesWithPrefix (abbreviated-id resolution): LazyIndex and MemoryIndex enumerate exactly
+   the entries whose id starts with the prefix, in id order; S = [with_prefix] (a filter) ---- *)
+Theorem C10_prefix_is_filter : forall hs H (Hsz : nat -> bytes -> bytes) es pack rev sum p,
+  wf_entries hs es = true -> List.length pack = hs ->
+  (exists hf t, rev = ([82; 73; 68; 88] ++ be32 1 ++ hf) ++ t /\ List.length hf = 4%nat) ->
+  wf_prefix p ->
+  let tbl := table es in
+  lazy_prefix hs (the_lazy hs H tbl pack rev) p = (with_prefix tbl p, None) /\
+  mem_prefix hs (spec_index tbl pack sum) p = (with_prefix tbl p, None).
+Proof.
+  intros hs H Hsz es pack rev sum p W Hp Hr Hwp tbl.
+  pose proof (wf_entries_tbl hs es W) as WF.
+  split; [exact (lazy_prefix_map hs H tbl pack rev WF Hp Hr p Hwp)|
+          exact (mem_prefix_map hs Hsz tbl pack sum WF Hp p Hwp)].
+Qed.
+Print Assumptions C10_prefix_is_filter.
 
 (* ---- C10_reject: malformed files are rejected by Decoder.Decode ---- *)
 Theorem C10_reject_magic : forall hs Hsz file,
